@@ -1,5 +1,5 @@
 SPECIFICATION Spec
-CONSTANTS MaxD = 3  MaxB = 2  Caps = {9}  MaxAborts = 0
+CONSTANTS MaxD = 3  MaxB = 2  MaxLeaves = 99  Caps = {9}  MaxAborts = 0
 INVARIANT TypeOK
 INVARIANT NoDuplicateLeaf
 INVARIANT AllLeavesVisitedAtStop
